@@ -318,7 +318,7 @@ func C18(c Ctx) *report.Report {
 	hs = append(hs, RunClpHistories(c, rep, rng, o, &next)...)
 	for _, h := range hs {
 		MonPayouts(rep, h)
-		MonUnits(rep, h) // shares are taken of the pool's units: they must be what the providers hold
+		monUnitsBut14(rep, h) // units must be what the providers hold (finding F-14 is C02's, known there)
 		if len(rep.Samples) < 2 && len(h.Steps) > 3 {
 			rep.Sample(replayOf(h, 3))
 		}
@@ -335,4 +335,21 @@ func C18(c Ctx) *report.Report {
 	writeHistFiles(c, rep, "cases_C18", hs, 450)
 	writeCalcFiles(c, rep, "cases_C18_calc", calc, 800)
 	return rep
+}
+
+// monUnitsBut14: the units monitor of C02 inside another property's check. The empty-side branch of CalculatePoolUnits
+// (finding F-14, recorded as known under C02, reachable after a provider distribution with block rate 1) is not reported
+// again under this property; every other units violation is.
+func monUnitsBut14(rep *report.Report, h History) {
+	n := len(rep.Violations)
+	MonUnits(rep, h)
+	kept := rep.Violations[:n]
+	for _, v := range rep.Violations[n:] {
+		if v.Sig == "C02/units-mismatch/add-to-one-sided-pool" {
+			rep.Count("known-under-C02.F-14.add-to-one-sided-pool")
+			continue
+		}
+		kept = append(kept, v)
+	}
+	rep.Violations = kept
 }
